@@ -673,6 +673,11 @@ def main():
 
     for blk in ("_p1_final_block", "_rwg_final_block"):
         VR.add_block(run, "contracts.dofmap_blocks", blk)
+    # the greedy step specification of lemma A, proved on the mechanically extracted body of the loop of FunctionSpace._compute_color_map (sets, the generator
+    # passed to next(), fancy indexing modelled as set / image-set terms), for 1 and 3 local slots: the new colour is in range and differs from the colour of
+    # every element listed under one of the element's dofs; all other colours are unchanged
+    for blk in ("_colour_step_ns1", "_colour_step_ns3"):
+        VR.add_block(run, "contracts.dofmap_blocks", blk)
     # hypothesis "inverse" of lemma B: invert_local2global (V-engine, all sizes)
     VR.add_function(run, "bempp_cl.api.space.space", "invert_local2global", "contracts.space_maps",
                     [{"local2global_map": [[0, 1, 2], [2, 1, 3]], "local_multipliers": [[1, 1, 0], [1, -1, 1]]}, {"local2global_map": [[1, 1], [0, 1]], "local_multipliers": [[0, 1], [1, 0]]}])
@@ -702,6 +707,8 @@ def main():
     run.bound("launch contracts: %d real assemblies (JIT off) with the precondition checked on every launch" % (len(LAUNCH_CASES) if thorough else 6))
     if thorough:
         run.bound("thread counts 1, 2, 7, 16 on screen(5) (50 elements), 9 arrays, 2 repetitions, JIT on")
+    run.assume("_compute_color_map: the generator passed to next() is not exhausted (an element has fewer distinct neighbour colours than there are support elements); the "
+               "composition of the per-iteration step contract over the loop is lemma A (induction step) with the trivial initial state (all colours -1)")
     run.assume("Numba executes every prange iteration exactly once, sequentially within the iteration, and privatises arrays and scalars first assigned inside the body")
     run.assume("methods of grid_data, shapeset / basis evaluators and numpy functions called in prange bodies do not write to shared arrays (unresolved callees are listed "
                "in the callee obligations)")
